@@ -55,6 +55,7 @@ def gen_cfg(rng):
     # the solver-specific settings (strategy, CrossProbability, ScalingFactor / radius, adaptive / xtol, imax) are documented as sticky:
     # a restored solver continued WITHOUT repeating them must follow the same trajectory as one that repeats them
     cfg['resume_settings'] = rng.choice(['repeat', 'plain'])
+    cfg['load_override'] = rng.random() < 0.25
     if rng.random() < 0.2: cfg['extra_args'] = [rng.choice([0.5, -1.0, 3.0])]      # cost(x, *ExtraArgs): the arguments are part of the saved state
     return cfg
 
@@ -148,7 +149,12 @@ def run_boundaries(rng, obs, tmp):
     for k in sorted(saves):
         if k >= N: continue
         try:
-            r = dill.loads(saves[k]) if cfg['restore'] == 'dill' else LoadSolver(saves[k])
+            if cfg['restore'] == 'dill': r = dill.loads(saves[k])
+            elif cfg.get('load_override'):
+                # LoadSolver(file, **state overrides): an override that repeats what the file already holds changes nothing
+                r = LoadSolver(saves[k], _maxiter=10 ** 6, _maxfun=10 ** 8)
+                obs.event('restored_with_a_no_op_state_override')
+            else: r = LoadSolver(saves[k])
         except Exception as e:
             obs.violation('resume:restore failed', k=k, save=cfg['save'], error=repr(e)[:200], solver=cfg['solver']); continue
         obs.event('restore_points'); points += 1
